@@ -76,7 +76,7 @@ package expressions
 //@   loop 1 invariant 0 <= tree.charPos && old(tree.charPos) < tree.charPos
 //@   loop 1 decreases len(tree.expression) - tree.charPos
 
-//@ func (*ParserT).parseStatement [C20 C19 C09]
+//@ func (*ParserT).parseStatement [C20 C19 C09 C08]
 //@   check slice
 //@   requires tree != nil && tree.statement != nil
 // after a quoted literal ('...' or "...") the argument is kept even when it is empty (C09: the literal
@@ -84,6 +84,9 @@ package expressions
 //@   at store canHaveZeroLenStr#1 assert tree.statement.canHaveZeroLenStr
 // the syntax-only pass (exec == false, tree.p == nil) never asks for glob expansion, which would need a process
 //@   at store possibleGlob#* assert imp(!exec, !tree.statement.possibleGlob)
+// (C08) `$name` as an argument: the variable's string value is appended rune for rune, as one piece
+//@   at store canHaveZeroLenStr#3 assert len(tree.statement.paramTemp) >= runecount(unbox(ret("(*ParserT).parseVarScalar#1", 1), string)) && forall(j, 0, runecount(unbox(ret("(*ParserT).parseVarScalar#1", 1), string)), tree.statement.paramTemp[len(tree.statement.paramTemp) - runecount(unbox(ret("(*ParserT).parseVarScalar#1", 1), string)) + j] == runeat(unbox(ret("(*ParserT).parseVarScalar#1", 1), string), j))
+//@   at call appendToParam@"[]rune(v.(string))" assert arg0 == tree && len(arg1) == runecount(unbox(ret("(*ParserT).parseVarScalar#1", 1), string)) && forall(j, 0, len(arg1), arg1[j] == runeat(unbox(ret("(*ParserT).parseVarScalar#1", 1), string), j))
 
 // Variable tokens: a successfully parsed token is never empty (it starts with its sigil).
 // parseVarParenthesis / parseVarIndexElement: trusted (their results start with `$(` / `$name[`).
@@ -100,9 +103,12 @@ package expressions
 // `:` handling: a cast marker as the very last character leaves parseBareword at the end of input.
 //@ func processStatementColon [C20 C19]
 //@   requires tree != nil && tree.statement != nil && 0 <= tree.charPos && tree.charPos < len(tree.expression)
-//@ func appendToParam [C20 C19]
+//@ func appendToParam [C20 C19 C08]
 //@   requires tree != nil && tree.statement != nil
 //@   modifies tree.statement.paramTemp, elems(tree.statement.paramTemp)
+//@   ensures len(tree.statement.paramTemp) == old(len(tree.statement.paramTemp)) + len(r)
+//@   ensures forall(j, 0, len(r), tree.statement.paramTemp[old(len(tree.statement.paramTemp)) + j] == old(r[j]))
+//@   ensures forall(k, 0, old(len(tree.statement.paramTemp)), tree.statement.paramTemp[k] == old(tree.statement.paramTemp[k]))
 
 // Sub-expression progress: after parsing `( ...` the branch cursor is never negative, so the outer
 // cursor (charPos += branch.charPos - 1, then ++) ends up beyond the '(' - the outer loop advances.
